@@ -62,8 +62,50 @@ def fail_fast_check():
     return None
 
 
+# ill-formed payloads whose first offending byte is an ASCII byte (a continuation byte was required there)
+BAD_ASCII = [b'\xe2abc', b'\xc3(', b'\xf0\x9f\x98!x', b'ab\xe2\x82z', b'\xdf\x7f']
+
+
+def first_offending(payload):
+    from spec import rfc3629
+    s = rfc3629.START
+    for i, b in enumerate(payload):
+        s = rfc3629.step(s, b)
+        if s == rfc3629.REJECT:
+            return i
+    return None
+
+
+def fail_fast_by_read_check():
+    """one unfragmented (or two-fragment) text message arrives in several reads, one of which STARTS with the first
+    offending byte; after that read the stream stays silent: the ProtocolError must already have been reported,
+    whatever the cut (the validator state is carried from read to read)"""
+    for payload in BAD + BAD_ASCII:
+        i = first_offending(payload)
+        if i is None or i == 0:
+            continue        # truncated sequences are only wrong at the end of the message; i == 0 needs no carried state
+        for fragment in (False, True):
+            if fragment:
+                wire = ref.server_frame(1, payload[:i], fin=0) + ref.server_frame(0, payload[i:], fin=0)
+                head = len(ref.server_frame(1, payload[:i], fin=0)) + 2
+            else:
+                wire = ref.server_frame(1, payload + b'tail', fin=0)
+                head = 2 + i
+            first, second = wire[:head], wire[head:head + 1]       # second = exactly the offending byte
+            run = harness.drive(reads=lambda ws, a=first, b=second: [harness.response_for(ws.key) + a, b, ('idle', 1), ('idle', 1), harness.ref_eof()],
+                                connect_kwargs=dict(ping_rate=0, poll=1), clock=harness.Clock().install())
+            names = [e.name for e in run.events]
+            k_pe = names.index('protocol_error') if 'protocol_error' in names else None
+            polls_before = names[:k_pe].count('poll') if k_pe is not None else None
+            if k_pe is None or polls_before > 1:
+                return dict(found=True, input='text payload %s %s, a read ending just before byte %d, then a read with exactly that byte, then silence' % (
+                    payload.hex(), 'as two fragments cut before the offending byte' if fragment else 'in one frame', i),
+                    expected='ProtocolError as soon as the offending byte has arrived', observed='events: %r' % names)
+    return None
+
+
 def replay(obligation, extra):
-    r = fail_fast_check() or deliver_check()
+    r = fail_fast_check() or fail_fast_by_read_check() or deliver_check()
     return r or dict(found=False, tried='delivery matrix (%d payloads x all 1-cut fragmentations x interleaved control frames x 2 segmentations) and fail-fast scenarios' % (len(GOOD) + len(BAD)))
 
 
